@@ -18,6 +18,7 @@ use std::collections::HashMap;
 use std::fmt::{Debug, Display, Formatter};
 use std::ops::DerefMut;
 use std::path::Path;
+use std::sync::atomic::{AtomicBool, Ordering};
 use std::sync::{Arc, Mutex, RwLock};
 
 pub struct TestRunner {
@@ -28,6 +29,8 @@ pub struct TestRunner {
     cpu: MOS6502,
     num_cycles: usize,
     formatted_traces: Vec<FormattedTrace>,
+    /// When set, a step that runs until something happens (that may never happen) gives up
+    interrupt: Option<Arc<AtomicBool>>,
 }
 
 #[derive(Debug, PartialEq)]
@@ -207,7 +210,20 @@ impl TestRunner {
             cpu,
             num_cycles: 0,
             formatted_traces: vec![],
+            interrupt: None,
         })
+    }
+
+    /// A flag that, once set, ends a 'step over' or 'step out' that is still waiting for its subroutine to return
+    pub fn set_interrupt(&mut self, interrupt: Arc<AtomicBool>) {
+        self.interrupt = Some(interrupt);
+    }
+
+    fn is_interrupted(&self) -> bool {
+        self.interrupt
+            .as_ref()
+            .map(|i| i.load(Ordering::Relaxed))
+            .unwrap_or_default()
     }
 
     pub fn cpu(&self) -> &MOS6502 {
@@ -355,6 +371,11 @@ impl TestRunner {
                 loop {
                     let result = self.execute_instruction()?;
 
+                    // (a subroutine that waits for something that never happens here, e.g. a raster line)
+                    if self.is_interrupted() {
+                        return Ok(result);
+                    }
+
                     if self.cpu.get_program_counter() == wait_until_pc
                         && self.cpu.get_stack_pointer() == wait_until_sp
                     {
@@ -383,6 +404,9 @@ impl TestRunner {
         // the subroutine may have pushed other things. So, keep track of the calls and returns on the way.
         let mut nested_calls = 0;
         loop {
+            if self.is_interrupted() {
+                return Ok(ExecuteResult::Running);
+            }
             let opcode = self.ram.read().unwrap().ram[self.cpu.get_program_counter() as usize];
             match self.execute_instruction()? {
                 ExecuteResult::Running => {}
